@@ -398,13 +398,24 @@ func genItem(t *Tape) Item {
 		it.Inputs = append(it.Inputs, ProgInput{Name: "in2.json", Data: QBytes(doc())})
 	}
 	k1, k2 := histKeys[t.Draw(len(histKeys))], histKeys[t.Draw(len(histKeys))]
-	switch t.Weighted(5, 5, 3, 3, 3, 2, 2, 2, 2, 2, 2, 1, 1, 4, 2, 3, 2, 4, 3, 3) {
+	switch t.Weighted(5, 5, 3, 3, 3, 2, 2, 2, 2, 2, 2, 1, 1, 4, 2, 3, 2, 4, 3, 3, 5) {
 	case 13:
 		// regular expressions: literal and string forms, patterns that share
 		// prefixes and lengths (a process-level cache keyed too coarsely shows here)
 		pats := []string{"^al", "^alp", "^alpha$", "a$", "a$|u$", "eta", "eta$", "^(be|ga)", "^(be|ga|de)", "^.a", "^.e", "^...$", "^....$", "[aeiou]{2}", "[aeiou]t", "^[a-m]", "^[n-z]", "mu|nu", "mu|xi"}
 		p1, p2 := pats[t.Draw(len(pats))], pats[t.Draw(len(pats))]
 		it.Prog = fmt.Sprintf("{ for (k, v in $) { if (k ~ /%s/) { print \"m1\", k }\n if (k !~ \"%s\") { print \"n2\", k } } }", p1, p2)
+	case 20:
+		// zeros of both signs, numbers that print alike, values that only differ in representation
+		it.Inputs = []ProgInput{{Name: "in.json", Data: QBytes(`[{"z": 0, "nz": -0, "h": 0.2, "nh": -0.2, "one": 1, "onef": 1.0, "big": 1e21, "tiny": 1e-7}]`)}}
+		it.Prog = []string{
+			"{ print $.z, $.nz, -$.z, -$.nz, $.h.round(), $.nh.round(), $.nh.ceil(), 0 * -1 }",
+			"{ o = {}\n o[$.nz] = \"neg\"\n o[$.z] = \"pos\"\n print o, $.nz + \"\", $.z + \"\" }",
+			"{ print $.nh.round(), $.h.round() }\nEND { print -0, 0, 1 - 1, -1 + 1 }",
+			"{ print $.one, $.onef, $.big, $.tiny, $.one == $.onef }\nEND { x[-0] = 1\n x[0] = 2\n print x }",
+			"{ print $.z }",
+			"{ print $.nz }",
+		}[t.Draw(6)]
 	case 18:
 		// object literals with repeated keys and values whose evaluation order shows
 		it.Prog = []string{
